@@ -373,6 +373,17 @@ def validate(res, tier, rng, only=None):
                        "HypergraphMT.fit train_info breaks %s (first at event %d): %s" % (",".join(prop), rj[0][0], short(cfg)), payload)
         elif model:
             res.model_drift("train_info / hook events deviate from EMDriver in %s: %s" % (",".join(model), short(cfg)))
+    # exploration-level keys: one evaluation = one configuration (HySC twice + Hypergraph-MT twice); a configuration is
+    # non-trivial when its EM actually iterated (more than one recorded log-likelihood in some realisation); distinct by
+    # (hypergraph, K, seed, options)
+    def _key(c):
+        return json.dumps({k: c[k] for k in sorted(c) if k not in ("ascent",)}, sort_keys=True, default=str)
+    nontrivial = {_key(cfgs[i]) for tr, i in zip(traces, tidx) if len(tr["ev"]) > 3}
+    res.cov(evaluations=len(cfgs), distinct_nontrivial=len(nontrivial),
+            rule=("one evaluation = one seeded configuration (random hypergraph with N 4..10 + isolated nodes, K, D, weights, label "
+                  "map, n_realizations, max_iter, normalizeU, baseline_r0, min_value_par) for which HySC.fit and HypergraphMT.fit are "
+                  "each run twice; non-trivial = the training trace has more than three recorded events; distinct = different "
+                  "configuration record"))
     res.cov(traces_validated_against_impl=len(traces), em_events=v2["events"], em_validator_states=v2["states"],
             output_cases=len(cases), output_validator_states=v1["states"], configurations=len(cfgs),
             fits=2 * len(cfgs), realisations=sum(c["n_realizations"] for c in cfgs),
